@@ -256,6 +256,10 @@ func (u *PacketUnderlay) RunEventLoop(ctx context.Context) error {
 				}
 				continue
 			}
+			if !u.isSegmentFromSessionOwner(session.(*Session), seg) {
+				log.Debugf("%v dropped %v from peer %v: it is not from the user that owns session %d", u, seg, addr, das.sessionID)
+				continue
+			}
 			u.deliverSegmentToSession(session.(*Session), seg)
 		} else {
 			log.Debugf("Ignore unknown protocol %d", seg.metadata.Protocol())
@@ -332,10 +336,35 @@ func (u *PacketUnderlay) onCloseSession(seg *segment) error {
 		return nil
 	}
 	s := session.(*Session)
+	if !u.isSegmentFromSessionOwner(s, seg) {
+		return fmt.Errorf("segment is not from the user that owns session %d", sessionID)
+	}
 	if !u.deliverSegmentToSession(s, seg) && log.IsLevelEnabled(log.TraceLevel) {
 		log.Tracef("%v ignored closeSessionRequest or closeSessionResponse segment for closed session %d", u, sessionID)
 	}
 	return nil
+}
+
+// isSegmentFromSessionOwner returns true if a segment can be delivered to
+// an existing session.
+//
+// All the users of a server packet underlay share one UDP socket, so they
+// also share one session ID space. A packet that is decrypted with the
+// credential of one user can carry the session ID of a session that is owned
+// by a different user, either on purpose or because two clients picked
+// the same random session ID. That packet must not reach the session.
+func (u *PacketUnderlay) isSegmentFromSessionOwner(s *Session, seg *segment) bool {
+	if u.isClient || seg.block == nil {
+		return true
+	}
+	segmentUserName := seg.block.BlockContext().UserName
+	if policy := s.userPolicy.Load(); policy != nil {
+		return policy.Name() == segmentUserName
+	}
+	if sessionBlock := s.block.Load(); sessionBlock != nil {
+		return (*sessionBlock).BlockContext().UserName == segmentUserName
+	}
+	return true
 }
 
 func (u *PacketUnderlay) readOneSegment() (*segment, net.Addr, error) {
